@@ -107,8 +107,11 @@ class Recorder(object):
         """kind: short sub-assertion name.  witness: JSON-safe dict that lets the
         case be re-run (must contain 'case') plus discriminating facts."""
         self.viol_counts[kind] += 1
-        if self._wit_per_kind[kind] < self.MAX_WITNESS_PER_KIND:
-            self._wit_per_kind[kind] += 1
+        # full witnesses are rationed per (kind, mechanism), not per kind: a recorded finding of the same kind must not use up
+        # the room an unrelated mechanism needs for its replayable witness
+        wkey = kind + '|' + json.dumps(jsafe(witness.get('mech')), sort_keys=True, default=repr)[:300]
+        if self._wit_per_kind[wkey] < self.MAX_WITNESS_PER_KIND and len(self._wit_per_kind) <= 400:
+            self._wit_per_kind[wkey] += 1
             w = dict(jsafe(witness))
             w['kind'] = kind
             w['shard_seed'] = [self.seed, self.shard]
